@@ -308,6 +308,26 @@ pub fn step(ctx: &Ctx, w: &World, ev: &mut Ev) {
                         let shape = if diff == f && e - half as i128 > 0 { "funding_not_charged" } else { "other" };
                         ev.violation("charge_exact", &format!("full_liquidation,{},{}", sign(f), shape), json!({"to_insurance_fund": to_if.to_string(), "expected": exp_if.to_string(), "funding_owed": f.to_string()}));
                     }
+                    // a position liquidated under water is charged through the bad debt it leaves: what the insurance fund
+                    // puts into the vault for it, net of the change of the engine's prepaid bad debt, is the debt realised
+                    // - the liquidator's fee less the equity (funding owed included). A realised debt that is off by
+                    // exactly the funding owed means the charge was left out (or made twice).
+                    if f != 0 {
+                        if let (Some(a), Some(b)) = (&ctx.pre.eng, &ctx.post.eng) {
+                            let realised_debt = ctx.sent(&ifund, &engine) as i128 - (b.bad_debt as i128 - a.bad_debt as i128);
+                            let exp_debt = (half as i128 - e).max(0);
+                            let diff = realised_debt - exp_debt;
+                            if exp_debt > 0 || realised_debt > 0 {
+                                ev.count("full_liquidation_with_bad_debt_and_funding");
+                            }
+                            if diff != 0 && (diff == -f || diff == f) && e < half as i128 {
+                                let shape = if diff == -f { "funding_not_charged" } else { "charged_twice" };
+                                ev.violation("charge_exact", &format!("full_liquidation_bad_debt,{},{}", sign(f), shape), json!({"bad_debt_realised": realised_debt.to_string(), "expected": exp_debt.to_string(), "equity": e.to_string(), "liquidator_fee": half.to_string(), "funding_owed": f.to_string()}));
+                            } else if diff != 0 {
+                                ev.count("full_liquidation_bad_debt_other_difference");
+                            }
+                        }
+                    }
                 }
                 Some(p2) if p2.size == 0 => {
                     // the whole position was taken although a record (size 0) is left behind: the position has been
